@@ -17,7 +17,7 @@ RULE = (
     "EVERY ordered selection of 1..3 (quick) / 1..4 (thorough) outputs x population argument {each pop, list, 'total', named aggregation} x output aggregation {default, sum, average} x population aggregation {default, sum, average, weighted} "
     "x {raw, interpolate(years), time_aggregate(bins) integrate / average}: the series of every (output, population) must equal the series of the singleton call with the same options; sums equal the sum of parts, averages lie between the parts. "
     "Cascades: every nested chain of <= 3 stages over the characteristic lattice (framework-defined, list and dict forms) x population selections x years (ascending and descending): values from results non-increasing along the cascade at every time, "
-    "values from data = sum of the databook entries. Purity: explicit-state BFS over sequences <= 3 of {PlotData, plot_series, plot_bars, plot_cascade, get_cascade_vals, export_results, Result.plot} with the result's full snapshot compared after every call."
+    "values from data = sum of the databook entries. Purity: explicit-state BFS over sequences <= 3 of {PlotData, plot_series, plot_bars, plot_cascade, get_cascade_vals, export_results, Result.plot, Result.get_variable by name, PlotData of flows} with the result's full snapshot compared after every call."
 )
 ASSUMPTIONS = [
     "one generated model family (two populations, three compartments) and its databook; outputs alphabet of 8 entries",
@@ -79,12 +79,15 @@ def cases(tier):
                 continue
             yield dict(kind="select", sel=list(sel))
     yield dict(kind="addup")
+    for k in (1, 2, 3):
+        for sel in itertools.permutations(range(len(POPITEMS)), k):
+            yield dict(kind="popselect", sel=list(sel))
     yield dict(kind="cascade_results")
     yield dict(kind="cascade_data")
-    ops = ["plotdata", "plot_series", "plot_bars", "plot_cascade", "cascade_vals", "export", "result_plot"]
+    ops = ["plotdata", "plot_series", "plot_bars", "plot_cascade", "cascade_vals", "export", "result_plot", "get_variable", "plotdata_flows"]
     for d in (1, 2, 3):
         for seq in itertools.product(ops, repeat=d):
-            if d == 3 and tier == "quick" and seq[0] not in ("plotdata", "cascade_vals"):
+            if d == 3 and tier == "quick" and seq[0] not in ("plotdata", "cascade_vals", "get_variable"):
                 continue
             yield dict(kind="purity", seq=list(seq))
 
@@ -156,6 +159,49 @@ def run_select(case):
         if vs:
             break
     return dict(states=ncalls, transitions=ncmp, nontrivial=len(outs) > 1, violations=vs[:2], counters=dict(plotdata_calls=ncalls, series_compared=ncmp))
+
+
+POPITEMS = ["pa", "pb", {"ga": ["pa"]}, {"gb": ["pb"]}, {"both": ["pa", "pb"]}, {"rev": ["pb", "pa"]}]
+
+
+def run_popselect(case):
+    """the dual of run_select: the series of one population / population group must not depend on which other populations or groups are requested with it"""
+    w, r = world()
+    sel = [POPITEMS[i] for i in case["sel"]]
+    vs = []
+    ncalls = ncmp = 0
+    for o, pagg, tr in itertools.product(OUTPUTS[:6], PAGG, ("raw", "tagg_int")):
+        singles = []
+        for it in sel:
+            key = ("popsingle", oname(o), oname(it), pagg, tr)
+            if key not in _SINGLE:
+                try:
+                    d = plotdata(r, [o], [it], None, pagg, tr)
+                    _SINGLE[key] = {(s_.pop, s_.output): np.array(s_.vals, dtype=float) for s_ in d.series}
+                except Exception as e:
+                    _SINGLE[key] = e
+            singles.append(_SINGLE[key])
+        if any(isinstance(s_, Exception) for s_ in singles):
+            continue
+        try:
+            d = plotdata(r, [o], sel, None, pagg, tr)
+        except Exception as e:
+            vs.append(V("joint-call-fails", f"output {oname(o)} pops={sel} pop_aggregation={pagg} {tr}: every population works on its own but the joint call raises {type(e).__name__}: {str(e)[:120]}", None))
+            break
+        ncalls += 1
+        got = {(s_.pop, s_.output): np.array(s_.vals, dtype=float) for s_ in d.series}
+        for ref in singles:
+            for key, v in ref.items():
+                ncmp += 1
+                g = got.get(key)
+                if g is None or g.shape != v.shape or not np.allclose(g, v, rtol=1e-12, atol=0, equal_nan=True):
+                    vs.append(V("depends-on-other-populations", f"output {key[1]!r} population {key[0]!r} (pop_aggregation={pagg}, {tr}): requested together with {sel} in this order gives {None if g is None else g[:3].tolist()}..., on its own {v[:3].tolist()}...", dict(pops=[oname(x) for x in sel])))
+                    break
+            if vs:
+                break
+        if vs:
+            break
+    return dict(states=ncalls, transitions=ncmp, nontrivial=len(sel) > 1, violations=vs[:2], counters=dict(plotdata_calls=ncalls, series_compared=ncmp))
 
 
 def run_addup(case):
@@ -324,6 +370,13 @@ def run_purity(case):
                 at.export_results([r], os.path.join(tmp, f"e{i}.xlsx"))
             elif op == "result_plot":
                 r.plot()
+            elif op == "get_variable":
+                # the accessor the plotting / export code uses to find out which populations hold an output: flows by name, all populations
+                for nm in ("a:b", "inf:flow", ":c", "a:", "a", "prev", "inf"):
+                    r.get_variable(nm)
+            elif op == "plotdata_flows":
+                at.PlotData(r, outputs=["a:b", ":c", "inf:flow"], pops="total")
+                at.PlotData(r, outputs=["a:", "rec:flow"], pops=["pb", "pa"])
             plt.close("all")
             if snap_hash(r, volatile=("_fcn",)) != h0:
                 vs.append(V("reporting-modifies-result", f"after {case['seq'][: i + 1]} the result object differs from its state before reporting", None))
@@ -335,4 +388,4 @@ def run_purity(case):
 
 
 def run_case(case):
-    return dict(select=run_select, addup=run_addup, cascade_results=run_cascade_results, cascade_data=run_cascade_data, purity=run_purity)[case["kind"]](case)
+    return dict(select=run_select, popselect=run_popselect, addup=run_addup, cascade_results=run_cascade_results, cascade_data=run_cascade_data, purity=run_purity)[case["kind"]](case)
